@@ -18,6 +18,9 @@ RULE = (
     'documented rejections (duplicate files, mixed catalogues). A case = one filtered or multi-file load compared column by column and slice by slice with its reference. '
     'non-trivial = distinct (tree, files, mask class, cleaned, subsamples, fields) with >= 2 superslabs or a mask that is neither all nor none'
 )
+RULE += (
+    ' Added after seeded round 9: filters that read a converted position, a radius scaled by meta[\'BoxSize\'] and N * meta[\'ParticleMassHMsun\'] (expected rows = the same function on the unfiltered load).'
+)
 ASSUMPTIONS = [
     'the loader calls filter_func once per superslab in file order (observed and asserted by the recording filter)',
     'index columns npstart/npout are compared through the particle slices they address',
